@@ -143,7 +143,12 @@ func runC03(c *Ctx) {
 				if o.seq%2 == 0 {
 					pr = gen.MessagePriorityMax
 				}
-				k.Exec(senders[o.sender], func(p *Puppet) { p.SendWithPriority(deadPid, pl, pr) })
+				if o.seq%3 == 2 {
+					// … or a priority REQUEST that fails (the callee is gone: the call returns at once)
+					k.Exec(senders[o.sender], func(p *Puppet) { p.CallWithPriority(deadPid, pl, pr) })
+				} else {
+					k.Exec(senders[o.sender], func(p *Puppet) { p.SendWithPriority(deadPid, pl, pr) })
+				}
 			case "x":
 				k.Exec(senders[o.sender], func(p *Puppet) { p.SendExit(rpid, fmt.Errorf("x|%d|%d", o.sender, o.seq)) })
 			case "d":
